@@ -50,6 +50,8 @@ func c33(c *engine.Ctx) {
 	if p == nil {
 		return
 	}
+	hhUse(p)
+	hhSetStops()
 	const CS = "tm2/pkg/bft/consensus.(*ConsensusState)."
 	const WAL = "tm2/pkg/bft/wal.(WAL)."
 
@@ -59,34 +61,51 @@ func c33(c *engine.Ctx) {
 		recv := hhRecv(f)
 		g := f.Graph()
 		height := paramObj(f, 0)
-		one := func(pat string) *engine.Site {
-			ss := f.CallsTo(pat)
+		oneD := func(pat string) *engine.DeepSite {
+			ss := hhDeepCalls(f, pat)
 			if len(ss) != 1 {
 				c.Check("finalize-order", f.Name+" exactly one call of "+pat, f.Pos(), false, "found "+hhItoa(len(ss)))
 				return nil
 			}
-			return ss[0]
+			return &ss[0]
 		}
-		save := one("tm2/pkg/bft/state.(BlockStore).SaveBlock")
-		metaW := one(WAL + "WriteMetaSync")
-		apply := one("tm2/pkg/bft/state.(*BlockExecutor).ApplyBlock")
+		one := func(pat string) *engine.Site {
+			if d := oneD(pat); d != nil {
+				return d.Outer
+			}
+			return nil
+		}
+		saveD := oneD("tm2/pkg/bft/state.(BlockStore).SaveBlock")
+		metaD := oneD(WAL + "WriteMetaSync")
+		applyD := oneD("tm2/pkg/bft/state.(*BlockExecutor).ApplyBlock")
 		upd := one(CS + "updateToState")
+		var save, metaW, apply *engine.Site
+		if saveD != nil {
+			save = saveD.Outer
+		}
+		if metaD != nil {
+			metaW = metaD.Outer
+		}
+		if applyD != nil {
+			apply = applyD.Outer
+		}
 		n := 0
 		if save != nil && metaW != nil {
 			n++
-			ok := g.ReachableAfter(save, metaW) && !g.ReachableAfter(metaW, save)
+			ok := g.ReachableAfter(save, metaW) && !g.ReachableAfter(metaW, save) && save != metaW
 			c.Check("finalize-order", f.Name+" SaveBlock before WriteMetaSync", save.Pos(), ok, "the ENDHEIGHT record implies the block is in the store: SaveBlock must never run after it")
 			// the save is skipped only when the store already has the block
 			names := map[types.Object]string{recv: "cs"}
+			facts := hhDeepFacts(f, *saveD)
 			var conds []string
-			for _, ft := range hhFacts(f, save) {
+			for _, ft := range facts {
 				if x, op, y, isCmp := hhCmp(ft); isCmp {
 					conds = append(conds, hhNorm(f, x, names, 1)+" "+op.String()+" "+hhNorm(f, y, names, 1))
 				}
 			}
-			blk := engine.ObjOf(info, hhArg(save.Call, 0))
+			blk := engine.ObjOf(info, hhDeepArg(*saveD, 0))
 			wantGate := false
-			for _, ft := range hhFacts(f, save) {
+			for _, ft := range facts {
 				x, op, y, isCmp := hhCmp(ft)
 				if !isCmp {
 					continue
@@ -103,13 +122,13 @@ func c33(c *engine.Ctx) {
 		}
 		if metaW != nil && apply != nil {
 			n++
-			ok, why := hhErrGuard(f, metaW, apply)
+			ok, why := hhDeepErrGuard(f, *metaD, apply)
 			if ok {
 				why = "ApplyBlock only after the fsynced ENDHEIGHT record was written"
 			}
 			c.Check("finalize-order", f.Name+" WriteMetaSync (error fatal) before ApplyBlock", metaW.Pos(), ok, why)
 			names := map[types.Object]string{height: "height"}
-			got := hhNorm(f, hhArg(metaW.Call, 0), names, 2)
+			got := hhNorm(f, hhDeepArg(*metaD, 0), names, 2)
 			want := "tm2/pkg/bft/wal.MetaMessage{Height: height + 1}"
 			c.Check("finalize-order", f.Name+" ENDHEIGHT value", metaW.Pos(), got == want, "got `"+got+"`, want `"+want+"`")
 			if save != nil {
@@ -118,7 +137,7 @@ func c33(c *engine.Ctx) {
 		}
 		if apply != nil && upd != nil {
 			n++
-			ok, why := hhErrGuard(f, apply, upd)
+			ok, why := hhDeepErrGuard(f, *applyD, upd)
 			if ok {
 				why = "consensus moves to the next height only after ApplyBlock succeeded"
 			}
@@ -146,13 +165,15 @@ func c33(c *engine.Ctx) {
 			{"SaveState", "tm2/pkg/bft/state.SaveState"},
 		}
 		sites := make([]*engine.Site, len(seq))
+		deeps := make([]*engine.DeepSite, len(seq))
 		for i, s := range seq {
-			ss := f.CallsTo(s.pat)
+			ss := hhDeepCalls(f, s.pat)
 			if len(ss) != 1 {
 				c.Check("apply-order", f.Name+" exactly one "+s.name, f.Pos(), false, "found "+hhItoa(len(ss)))
 				continue
 			}
-			sites[i] = ss[0]
+			sites[i] = ss[0].Outer
+			deeps[i] = &ss[0]
 		}
 		n := 0
 		for i := 0; i+1 < len(seq); i++ {
@@ -161,11 +182,11 @@ func c33(c *engine.Ctx) {
 				continue
 			}
 			n++
-			ok := g.Dominates(a, b) && !g.ReachableAfter(b, a)
+			ok := g.Dominates(a, b) && !g.ReachableAfter(b, a) && a != b
 			why := seq[i].name + " must precede " + seq[i+1].name + " on every path"
 			// fallible steps: the next step only on success
 			if ok && (seq[i].name == "ValidateBlock" || seq[i].name == "execBlockOnProxyApp" || seq[i].name == "updateState" || seq[i].name == "Commit") {
-				ok, why = hhErrGuard(f, a, b)
+				ok, why = hhDeepErrGuard(f, *deeps[i], b)
 				if !ok {
 					why = seq[i+1].name + " runs although " + seq[i].name + " failed: " + why
 				}
@@ -176,7 +197,13 @@ func c33(c *engine.Ctx) {
 		// SaveState saves a state carrying the app hash returned by Commit
 		if cm, sv := sites[4], sites[5]; cm != nil && sv != nil {
 			rv := hhResultVars(f, cm)
-			st := engine.ObjOf(info, hhArg(sv.Call, 1))
+			if deeps[4].Inner != deeps[4].Outer {
+				rv = nil // Commit wrapped in a helper: result variables are the helper call's
+				if r2 := hhResultVars(f, cm); len(r2) == 2 {
+					rv = r2
+				}
+			}
+			st := engine.ObjOf(info, hhDeepArg(*deeps[5], 1))
 			ok := false
 			if len(rv) == 2 && rv[0] != nil && st != nil {
 				for _, a := range hhFieldAssigns(f, st) {
@@ -189,7 +216,7 @@ func c33(c *engine.Ctx) {
 			// the height under which the responses are saved is the block's
 			if sr := sites[2]; sr != nil {
 				blk := paramObj(f, 2)
-				c.Check("apply-order", f.Name+" SaveABCIResponses(block.Height)", sr.Pos(), hhIsChain(info, hhArg(sr.Call, 1), blk, "Height"), "responses must be saved under the height of the block being applied (replay with the mock app loads them by store height)")
+				c.Check("apply-order", f.Name+" SaveABCIResponses(block.Height)", sr.Pos(), hhIsChain(info, hhDeepArg(*deeps[2], 1), blk, "Height"), "responses must be saved under the height of the block being applied (replay with the mock app loads them by store height)")
 			}
 		}
 	}
@@ -464,8 +491,8 @@ func c33(c *engine.Ctx) {
 	}
 	for _, pr := range [][2]string{{"signVote", "tm2/pkg/bft/types.(PrivValidator).SignVote"}, {"defaultDecideProposal", "tm2/pkg/bft/types.(PrivValidator).SignProposal"}} {
 		if f := c.MustFunc(CS + pr[0]); f != nil {
-			fl := f.CallsTo(WAL + "FlushAndSync")
-			sg := f.CallsTo(pr[1])
+			fl := engine.Outers(hhDeepCalls(f, WAL+"FlushAndSync"))
+			sg := engine.Outers(hhDeepCalls(f, pr[1]))
 			c.Floor("wal-before-handle "+pr[0], len(sg), 1)
 			for _, s := range sg {
 				c.Check("wal-before-handle", f.Name+" FlushAndSync before signing", s.Pos(), f.Graph().MustPass(s, fl), "the WAL must be flushed before the private validator is asked to sign (replay must recompute the same message)")
